@@ -226,8 +226,14 @@ def rule_f(ctx):
   lp = loops[0]
   g = C.cfg_of(f.node)
   it = [k for k in g.nodes if k.kind == 'iter' and k.ast is lp]
-  outcome = lambda k: any((A.call_name(c) or '') in ('list_args.append', 'missing_required_arg_names.append')
-                          for c in k.calls())
+  # outcome lists: locals initialised to [] right before the loop
+  outlists = set()
+  for st in ast.walk(f.node):
+    if isinstance(st, ast.Assign) and isinstance(st.value, ast.List) and not st.value.elts \
+        and st.lineno < lp.lineno and lp.lineno - st.lineno <= 6:
+      outlists |= set(A.assigned_names(st.targets[0]))
+  outcome = lambda k: any((A.call_name(c) or '').endswith('.append')
+                          and (A.call_name(c) or '').split('.')[0] in outlists for c in k.calls())
   problems = []
   if any(isinstance(x, (ast.Break, ast.Return)) for x in ast.walk(lp)):
     problems.append('the loop can stop early')
